@@ -103,22 +103,32 @@ def main():
         done = run_model(c, model, cases, hp)
         c.evaluations += len(done)
         c.traces_validated += len(done)
-        jl = [c02_judge_line(x) for x in done]
-        rc, jout, jerr = c.run_lines(model, jl, timeout=3000) if jl else (0, [], "")
-        if len(jout) != len(jl):
-            c.broke("judge", f"model driver answered {len(jout)} of {len(jl)} judge lines: {jerr[-800:]}")
-        bad, diffs = [], []
-        for x, o in zip(done, jout):
-            if o != "1":
-                why = "property predicate Spec.c02ok false"
-                if x.d.get("exc", "-") != "-":
-                    why += ": exception left service::run(): " + bytes.fromhex(x.d["exc"]).decode("latin1")
-                elif "crash" in x.mflags:
-                    why += ": the decoder model reaches an undefined operation: " + x.model
-                elif x.d.get("probe") != "ok":
-                    why += ": probe on a fresh connection not answered correctly"
-                bad.append((x, why))
-            elif x.mode == "hc" and "multipart" not in x.mflags and x.impl != x.model:
+        def judge(cases_done):
+            """-> list of (case, why) for which the property predicate is false"""
+            jl = [c02_judge_line(x) for x in cases_done]
+            rc, jout, jerr = c.run_lines(model, jl, timeout=3000) if jl else (0, [], "")
+            if len(jout) != len(jl):
+                c.broke("judge", f"model driver answered {len(jout)} of {len(jl)} judge lines: {jerr[-800:]}")
+            res = []
+            for x, o in zip(cases_done, jout):
+                if o != "1":
+                    why = "property predicate Spec.c02ok false"
+                    if x.d.get("exc", "-") != "-":
+                        why += ": exception left service::run(): " + bytes.fromhex(x.d["exc"]).decode("latin1")
+                    elif "crash" in x.mflags:
+                        why += ": the decoder model reaches an undefined operation: " + x.model
+                    elif x.d.get("probe") != "ok":
+                        why += ": probe on a fresh connection not answered correctly"
+                    elif "T" in x.d.get("flags", ""):
+                        why += ": connection neither answered nor closed after the peer's half-close"
+                    res.append((x, why))
+            return res
+        bad = judge(done)
+        badset = set(id(x) for x, _ in bad)
+        diffs = []
+        jl = done
+        for x in done:
+            if id(x) not in badset and x.mode == "hc" and "multipart" not in x.mflags and x.impl != x.model:
                 diffs.append(x)
             if x.model and (" ; " in x.model.split(" | ")[0] or not x.model.startswith("app ")):
                 c.nontrivial.add((x.api, x.data(), x.mode))
@@ -138,6 +148,8 @@ def main():
         c.samples = [{"case": x.line()[:300], "reads": x.d.get("reads"), "impl": x.impl[:300], "model": x.model[:300]} for x in pick]
         for x, err in crashes:
             bad.append((x, "sanitizer abort / crash of the real service: " + " ".join(l.strip() for l in err.splitlines() if "ERROR" in l or "runtime error" in l)[:300], err))
+        if not c.replay_path:
+            bad = confirm_soft(c, hbin, model, bad, judge)
         for item in pick_diverse(bad, 20):
             x, why = item[0], item[1]
             c.violation(why, dict(x.replay(), stderr=item[2]) if len(item) > 2 else x.replay())
